@@ -31,6 +31,9 @@ typedef struct {
 } C10_writer;
 
 size_t g_wi; /* ghost position inside the writer's string */
+/* the byte at the ghost position; the index is reduced into the array so that the expression is defined for every g_wi
+ * (C10_WCAP is a power of two; every clause that uses it is guarded by g_wi < size <= C10_WCAP, where it is data[g_wi]) */
+#define C10_WAT(w) ((w)->data[g_wi & (C10_WCAP - 1)])
 size_t g_hi; /* ghost position inside the formatted string */
 
 void C10_writer_init(C10_writer* w)
@@ -45,23 +48,23 @@ void C10_writer_write(C10_writer* w, const void* p, size_t n)
 __CPROVER_requires(__CPROVER_w_ok(w, sizeof(C10_writer)) && w->size <= C10_WCAP && n <= C10_WCAP - w->size)
 __CPROVER_requires(__CPROVER_r_ok(p, n))
 __CPROVER_ensures(w->size == __CPROVER_old(w->size) + n)
-__CPROVER_ensures(g_wi < __CPROVER_old(w->size) ==> w->data[g_wi] == __CPROVER_old(w->data[g_wi]))
-__CPROVER_ensures((g_wi >= __CPROVER_old(w->size) && g_wi < w->size) ==> w->data[g_wi] == ((const uint8_t*)p)[g_wi - __CPROVER_old(w->size)])
+__CPROVER_ensures(g_wi < __CPROVER_old(w->size) ==> C10_WAT(w) == __CPROVER_old(C10_WAT(w)))
+__CPROVER_ensures((g_wi >= __CPROVER_old(w->size) && g_wi < w->size) ==> C10_WAT(w) == ((const uint8_t*)p)[g_wi - __CPROVER_old(w->size)])
 __CPROVER_assigns(__CPROVER_object_whole(w));
 
 void C10_writer_put_u8(C10_writer* w, uint8_t v)
 __CPROVER_requires(__CPROVER_w_ok(w, sizeof(C10_writer)) && w->size < C10_WCAP)
 __CPROVER_ensures(w->size == __CPROVER_old(w->size) + 1)
-__CPROVER_ensures(g_wi < __CPROVER_old(w->size) ==> w->data[g_wi] == __CPROVER_old(w->data[g_wi]))
-__CPROVER_ensures(g_wi == __CPROVER_old(w->size) ==> w->data[g_wi] == v)
+__CPROVER_ensures(g_wi < __CPROVER_old(w->size) ==> C10_WAT(w) == __CPROVER_old(C10_WAT(w)))
+__CPROVER_ensures(g_wi == __CPROVER_old(w->size) ==> C10_WAT(w) == v)
 __CPROVER_assigns(__CPROVER_object_whole(w));
 
 #define C10_PUT32(NAME, BYTEK)                                                                                           \
   void NAME(C10_writer* w, uint32_t v)                                                                                   \
   __CPROVER_requires(__CPROVER_w_ok(w, sizeof(C10_writer)) && w->size <= C10_WCAP - 4)                                   \
   __CPROVER_ensures(w->size == __CPROVER_old(w->size) + 4)                                                               \
-  __CPROVER_ensures(g_wi < __CPROVER_old(w->size) ==> w->data[g_wi] == __CPROVER_old(w->data[g_wi]))                     \
-  __CPROVER_ensures((g_wi >= __CPROVER_old(w->size) && g_wi < w->size) ==> w->data[g_wi] == BYTEK(v, g_wi - __CPROVER_old(w->size))) \
+  __CPROVER_ensures(g_wi < __CPROVER_old(w->size) ==> C10_WAT(w) == __CPROVER_old(C10_WAT(w)))                     \
+  __CPROVER_ensures((g_wi >= __CPROVER_old(w->size) && g_wi < w->size) ==> C10_WAT(w) == BYTEK(v, g_wi - __CPROVER_old(w->size))) \
   __CPROVER_assigns(__CPROVER_object_whole(w));
 /* byte k (0..n-1) in memory order of the little / big-endian encoding of an n-byte value */
 #define C10_LE_BYTE(v, k) VBYTE(v, k)
@@ -73,17 +76,17 @@ C10_PUT32(C10_writer_put_u32b, C10_BE32_BYTE)
 void C10_writer_extend_to(C10_writer* w, size_t n, char c)
 __CPROVER_requires(__CPROVER_w_ok(w, sizeof(C10_writer)) && w->size <= C10_WCAP && n <= C10_WCAP)
 __CPROVER_ensures(w->size == n)
-__CPROVER_ensures((g_wi < __CPROVER_old(w->size) && g_wi < n) ==> w->data[g_wi] == __CPROVER_old(w->data[g_wi]))
-__CPROVER_ensures((g_wi >= __CPROVER_old(w->size) && g_wi < n) ==> w->data[g_wi] == (uint8_t)c)
+__CPROVER_ensures((g_wi < __CPROVER_old(w->size) && g_wi < n) ==> C10_WAT(w) == __CPROVER_old(C10_WAT(w)))
+__CPROVER_ensures((g_wi >= __CPROVER_old(w->size) && g_wi < n) ==> C10_WAT(w) == (uint8_t)c)
 __CPROVER_assigns(__CPROVER_object_whole(w));
 
 #define C10_PPUT64(NAME, BYTEK)                                                                                          \
   void NAME(C10_writer* w, size_t off, uint64_t v)                                                                       \
   __CPROVER_requires(__CPROVER_w_ok(w, sizeof(C10_writer)) && w->size <= C10_WCAP && off <= C10_WCAP - 8)                \
   __CPROVER_ensures(w->size == ((off + 8 > __CPROVER_old(w->size)) ? off + 8 : __CPROVER_old(w->size)))                  \
-  __CPROVER_ensures((g_wi >= off && g_wi < off + 8) ==> w->data[g_wi] == BYTEK(v, g_wi - off))                           \
-  __CPROVER_ensures((g_wi < __CPROVER_old(w->size) && (g_wi < off || g_wi >= off + 8)) ==> w->data[g_wi] == __CPROVER_old(w->data[g_wi])) \
-  __CPROVER_ensures((g_wi >= __CPROVER_old(w->size) && g_wi < off) ==> w->data[g_wi] == 0)                               \
+  __CPROVER_ensures((g_wi >= off && g_wi < off + 8) ==> C10_WAT(w) == BYTEK(v, g_wi - off))                           \
+  __CPROVER_ensures((g_wi < __CPROVER_old(w->size) && (g_wi < off || g_wi >= off + 8)) ==> C10_WAT(w) == __CPROVER_old(C10_WAT(w))) \
+  __CPROVER_ensures((g_wi >= __CPROVER_old(w->size) && g_wi < off) ==> C10_WAT(w) == 0)                               \
   __CPROVER_assigns(__CPROVER_object_whole(w));
 C10_PPUT64(C10_writer_pput_u64l, C10_LE_BYTE)
 C10_PPUT64(C10_writer_pput_u64b, C10_BE64_BYTE)
